@@ -90,7 +90,7 @@ def sched_params():
 
 
 def values_params():
-    out = dict(deser='DUnknown', setstate='SSUnknown')
+    out = dict(deser='DUnknown', setstate='SSUnknown', sermode='SerUnknown')
     ser = _src('serialization.py')
     fn = _find(ser, 'Serializer', 'deserialize_value')
     if fn is not None:
@@ -106,6 +106,18 @@ def values_params():
                   and {n.func.attr for n in ast.walk(fn) if isinstance(n, ast.Call) and isinstance(n.func, ast.Attribute)}
                   <= {'is_serialized_task', 'deserialize_task', 'is_serialized_enum', 'deserialize_enum'}):
                 out['deser'] = 'DShallow'
+    # serialize_value: a dict with a truthy marker key is wrapped ({'_is_dict': True, 'items': ...}) / written as it is
+    out['sermode'] = 'SerUnknown'
+    sv = _find(ser, 'Serializer', 'serialize_value')
+    dv = _find(ser, 'Serializer', 'deserialize_value')
+    if sv is not None and dv is not None:
+        src_sv, src_dv = ast.unparse(sv), ast.unparse(dv)
+        wraps = "{'_is_dict': True, 'items': serialized_dict}" in src_sv and 'MARKER_KEYS' in src_sv
+        reads = 'is_serialized_dict' in src_dv and "['items']" in src_dv
+        if wraps and reads:
+            out['sermode'] = 'SerWrapsDicts'
+        elif '_is_dict' not in src_sv and '_is_dict' not in src_dv and 'is_serialized_dict' not in src_dv:
+            out['sermode'] = 'SerPlainDicts'
     tasks = _src('tasks.py')
     gs = _find(tasks, '_task__getstate__')
     out['getstate'] = 'GSUnknown'
@@ -471,7 +483,7 @@ def with_probes():
     for k in ('g_empty', 'g_key_parent', 'g_file_parent', 'g_delete_validates'):
         _settle(sg, k, 'false', probed)
     vp = values_params()
-    for k, unk in (('deser', 'DUnknown'), ('setstate', 'SSUnknown'), ('getstate', 'GSUnknown'), ('keymode', 'KeyUnknown')):
+    for k, unk in (('deser', 'DUnknown'), ('setstate', 'SSUnknown'), ('getstate', 'GSUnknown'), ('keymode', 'KeyUnknown'), ('sermode', 'SerUnknown')):
         _settle(vp, k, unk, probed)
     ipar = intr_params()
     _settle(ipar, 'gen', 'GenUnknown', probed)
@@ -501,7 +513,8 @@ def render():
     lines += ['Definition deser_mode_src : deser_mode := %(deser)s.' % vp,
               'Definition setstate_mode_src : setstate_mode := %(setstate)s.' % vp,
               'Definition key_mode_src : key_mode := %(keymode)s.' % vp,
-              'Definition getstate_mode_src : getstate_mode := %(getstate)s.' % vp]
+              'Definition getstate_mode_src : getstate_mode := %(getstate)s.' % vp,
+              'Definition ser_mode_src : ser_mode := %(sermode)s.' % vp]
     lines += ['Definition gen_mode_src : gen_mode := %(gen)s.' % ipar,
               'Definition drain_swallows_src : bool := %(drain)s.' % ipar,
               'Definition stop_swallows_src : bool := %(stop)s.' % ipar,
